@@ -174,6 +174,54 @@ theorem Dealer.run_hwm (c : DealerCfg) (d : Dealer) (evs : List DealerEv) : (Dea
     simp only [Dealer.run, List.foldl_cons] at ih ⊢
     rw [ih, Dealer.step_hwm]
 
+theorem Dealer.step_cap (c : DealerCfg) (d : Dealer) (e : DealerEv) : (Dealer.step c d e).cap = d.cap := by
+  cases e with
+  | send m =>
+    simp only [Dealer.step, Dealer.queueOrRefuse]
+    split
+    · split <;> rfl
+    · split
+      · rfl
+      · split <;> rfl
+  | procPop => simp only [Dealer.step]; split <;> rfl
+  | procRoute =>
+    simp only [Dealer.step]
+    split
+    · rfl
+    · split
+      · rfl
+      · split <;> rfl
+  | sessionTake => simp only [Dealer.step]; split <;> rfl
+
+theorem Dealer.run_cap (c : DealerCfg) (d : Dealer) (evs : List DealerEv) : (Dealer.run c d evs).cap = d.cap := by
+  induction evs generalizing d with
+  | nil => rfl
+  | cons e es ih =>
+    simp only [Dealer.run, List.foldl_cons] at ih ⊢
+    rw [ih, Dealer.step_cap]
+
+/-- a send is refused only when the pending queue is at SNDHWM and the message could not go to the pipe either (the pipe is
+full, or older messages are pending and must go first) -/
+theorem Dealer.refusal_only_when_full (c : DealerCfg) (d : Dealer) (m : Nat)
+    (h : (Dealer.step c d (.send m)).accepted = d.accepted) :
+    max d.hwm 1 ≤ d.pending.length ∧ (max d.cap 1 ≤ d.pipe.length ∨ 0 < d.backlog) := by
+  simp only [Dealer.step] at h
+  split at h
+  · rename_i hb
+    unfold Dealer.queueOrRefuse at h
+    split at h
+    · simp at h
+    · rename_i hq
+      simp only [Bool.and_eq_true, decide_eq_true_eq] at hb
+      exact ⟨by omega, Or.inr hb.2⟩
+  · split at h
+    · simp at h
+    · rename_i hp
+      unfold Dealer.queueOrRefuse at h
+      split at h
+      · simp at h
+      · rename_i hq; exact ⟨by omega, Or.inl (by omega)⟩
+
 /-! ## nothing accepted is stranded: from every reachable state the processor and the session can drain everything -/
 
 def DealerEv.isSend : DealerEv → Bool
